@@ -19,7 +19,9 @@
 #include "xfrm/compress.h"
 #include "xfrm/wrap.h"
 
+#ifndef UNIT
 #define UNIT 131072
+#endif
 typedef struct { sqfs_ostream_t base; unsigned char *d; size_t n; } memsink_t;
 static int ms_append(sqfs_ostream_t *s, const void *data, size_t size)
 {
